@@ -484,8 +484,18 @@ impl<'t> RRIterator<'t> {
         let offset = self
             .offset
             .expect("recompute() called prior to iterating over RRs");
-        let name_end = Self::skip_name(self.parsed_packet.packet(), offset);
-        let offset_next = Self::skip_rdata(self.parsed_packet.packet(), name_end);
+        let packet = self.parsed_packet.packet();
+        let (name_end, offset_next) = match self.section {
+            Section::Question => {
+                let name_end = Self::skip_name(packet, offset);
+                (name_end, name_end + DNS_RR_QUESTION_HEADER_SIZE)
+            }
+            Section::Edns => (offset, Self::edns_skip_rr(packet, offset)),
+            _ => {
+                let name_end = Self::skip_name(packet, offset);
+                (name_end, Self::skip_rdata(packet, name_end))
+            }
+        };
         self.name_end = name_end;
         self.offset_next = offset_next;
     }
